@@ -3,7 +3,7 @@ from .common import fams, generic_replay, PATTERNS
 
 
 def run(tier):
-    return scans.scan_check("C04", ("INT.",), {"INT"}, fams({'INT'}, closed=False, sedov=False), tier, require_patterns=PATTERNS)
+    return scans.scan_check("C04", ("INT.",), {"INT"}, fams({'INT'}, closed=False, sedov=False, extra=('RiemannGen','RiemannJWL')), tier, require_patterns=PATTERNS)
 
 
 def replay(path):
